@@ -78,6 +78,17 @@ CHECKS = {
         "invisible to the projection is allowed.",
         "DESIGN.md section 2 C07",
     ),
+    "C08": (
+        "exploration",
+        "Hypothesis collections (1-4 documents of C02's grammar, chapters, templates and images stored in the archive) written with the real "
+        "FsOutput/zip_dir, opened with make_wiki and rendered through the rl and odf writer entry points and their single-article test "
+        "modes; oracle: writer returns, PDF text contains every expected word, ODF package well-formed and lint-clean",
+        "Hundreds of generated collections per run go through the whole pipeline (archive, expansion, parsing, cleaning, layout); the "
+        "expected word set comes from the generator (article words, template words, thumbnail / gallery / table-cell captions).",
+        "Word presence in pypdf's text extraction (whitespace and hyphens removed), not layout or order; pdftk/pdfsam are absent, so the "
+        "TOC merge step runs only as far as mwlib tolerates a missing tool.",
+        "DESIGN.md section 2 C08",
+    ),
     "C09": (
         "exploration",
         "Hypothesis bodies (full-alphabet lexeme soup) x 6 opaque tags x 10 embedding contexts x with/without wiki database; oracle: node "
